@@ -274,6 +274,11 @@ var c13Extra = []string{
 	"<?php use Lib\\Http\\Client; use Vendor\\Net\\CLIENT; use function A\\foo; use function B\\FOO; use const C\\K; use const D\\k; new client; new Client\\X; Foo(); echo K, k;",
 	"<?php namespace N; use A\\{B, b as C, c}; use A\\B as c; new b; new C; new B\\D; function f(c $x): B {}",
 	"<?php use FUNCTION Foo\\bar; use CONST Foo\\BAZ; use A\\{Function f, CONST C, D}; use Function A\\{g}; bar(); BAZ; f(); C; new D; g();",
+	// long tokens and long data (an operation that shortens, caches or rewrites what it shows must do so on its own copy)
+	"<?php $a; __halt_compiler();0123456789abcdef0123456789abcdef0",
+	"<?php __halt_compiler();\n" + strings.Repeat("0123456789abcdef", 20) + "\n<?php not code",
+	"<?php $s = '" + strings.Repeat("0123456789abcdef", 20) + "'; $t = \"" + strings.Repeat("x", 300) + " $v " + strings.Repeat("y", 300) + "\"; /* " + strings.Repeat("c", 300) + " */ $u = <<<A\n" + strings.Repeat("z", 300) + "\nA;\n",
+	strings.Repeat("<p>html</p>\n", 30) + "<?php $a ?>" + strings.Repeat("x", 300),
 	"#!shebang\n<html><?= $a ?>\n<?php /** doc */ abstract class A { const X = 1, Y = 2; public static $p = [1]; abstract protected function m(); } __halt_compiler(); tail",
 }
 
